@@ -208,11 +208,19 @@ func flowStream(prop string, r *hx.Rand, tier string, n int, w *bufio.Writer) ma
 		router := hx.Pick(r, "provider", "legacy")
 		cfg := opbed.Config{Router: router, S256: true, Post: r.Chance(70), PrivateKeyJWT: r.Chance(80), Refresh: r.Chance(85),
 			Caps: refstore.Caps{CC: true, TE: true, Device: true}}
+		var gate *c04xGate // deep3-C04: a gate around single storage calls (concurrent schedules, strict DeleteAuthRequest; c04x.go)
+		if prop == "C04" {
+			gate = newC04xGate()
+			cfg.WrapStorage = gate.wrap
+		}
 		bed, err := opbed.New(cfg)
 		if err != nil {
 			panic(err)
 		}
 		cls := flowClientsCross()
+		if prop == "C04" { // deep3-C04: access-token type per registration (c04x.go)
+			c04xPrepare(r, cls, stats)
+		}
 		for _, fc := range cls {
 			bed.Store.AddClient(fc.c)
 		}
@@ -797,6 +805,10 @@ func flowStream(prop string, r *hx.Rand, tier string, n int, w *bufio.Writer) ma
 				}
 			}
 		}
+		if prop == "C04" { // deep3-C04: scripted openings of c04x.go (faults at the k-th storage call, races, redirect_uri / PKCE near-misses)
+			c04xScenarios(&c04xCtx{prop: prop, tier: tier, r: r, bed: bed, sy: sy, cls: cls, byID: byID, stats: stats, gate: gate,
+				emit: emit, caseNo: &caseNo, doLogin: doLogin, doCallback: doCallback})
+		}
 		nops := 4 + r.Intn(maxOps)
 		for o := 0; o < nops; o++ {
 			// weighted choice among the operations that are possible now
@@ -1015,6 +1027,7 @@ func flowTokenObs(bed *opbed.Bed, l *hx.Line, resp *opbed.Resp, rts *[]*issuedRT
 		if sc, ok := resp.JSON["scope"].(string); ok {
 			l.L("o.respscope", strings.Split(sc, " "))
 		}
+		c04xTokenObs(bed, l, resp) // deep3-C04: every single token of the response, decoded (c04x.go)
 	default:
 		l.S("obs", "err").S("o.err", resp.OAuthError()).I("o.status", int64(resp.Status))
 	}
